@@ -96,4 +96,8 @@ Definition kappa_total (dt_terms : bool) (rho ntot T ni_limit : A) (masses nd hv
            (nb : nat) (kdash : A) : A :=
   kdash + (if dt_terms then kdt_value T nb hv DT else # 0%Z) + krxn_enth_value rho ntot masses hv dxdT D nb
         + (if dt_terms then krxn_therm_value ntot T ni_limit masses nd DT dxdT nb else # 0%Z).
+(* ---- the collision-integral matrices consumed by q / qhat (hand-written from functions_transport.Qij_mix):
+   Q_values[i, j] = Qij(species_i, n_i, species_j, n_j, l, s, T) for all pairs of the mixture ---- *)
+Definition Qmix (sps : list (species A)) (nd : list A) (l s : nat) (T : A) (i j : nat) : A :=
+  Qij N U (nth i sps (dummy_species (# 0%Z))) (nth i nd (# 0%Z)) (nth j sps (dummy_species (# 0%Z))) (nth j nd (# 0%Z)) l s T.
 End Transport.
